@@ -11,9 +11,10 @@
     theorems of the compact form (abstract in the layout; the layout hypotheses are evaluated per
     run); index statement of the PSD completion.
     NOT proved here: that the concrete compact layout satisfies the layout hypotheses for every
-    valid tree (checked per run), positive semidefiniteness of the completed matrix (validated
-    per run), and the Agler/Grone decomposition-completion theorem (a premise of "same verdict
-    and objective", never an axiom).
+    valid tree (checked per run), positive semidefiniteness of the completed matrix in general
+    (validated per run; proved here for two cliques sharing one vertex), i.e. the completion
+    direction of the Agler/Grone theorem stays cited.  The easy direction (sum of scattered PSD
+    blocks is PSD) is proved in general.
     The model (Chordal/Decomp.v) is compared exactly with the implementation on integer data,
     and returned solutions are re-checked against the original problem in exact dyadic
     arithmetic (Chordal/E2E.v). *)
@@ -23,6 +24,8 @@ Require Import Clarabel.Chordal.TreeSpec Clarabel.Chordal.TriIndex Clarabel.Chor
                Clarabel.Chordal.Decomp Clarabel.Chordal.DecompLemmas Clarabel.Chordal.StdRows
                Clarabel.Chordal.CompletionIdx Clarabel.Chordal.Equiv.
 Require Clarabel.Props.C17.
+Require Clarabel.Chordal.PsdFacts.
+From Coq Require Reals.
 
 Theorem C18_cmp_rows_once_unique : forall p t, ValidTree p t ->
   forall u v c d, In c (post t) -> In d (post t) ->
@@ -139,6 +142,30 @@ Theorem C18_cmp_dual_consistent : forall ties z',
      (nth (fst (nth k ties (0%nat, 0%nat))) z' 0 - nth (snd (nth k ties (0%nat, 0%nat))) z' 0 = 0)%Z) ->
   forall i j, linked ties i j -> nth i z' 0%Z = nth j z' 0%Z.
 Proof. exact cmp_dual_consistent. Qed.
+
+(** The matrix facts behind "decomposed <=> original" (over the reals; PSD n M := every quadratic
+    form x' M x over indices < n is nonnegative).
+    Easy direction, in general: the slack reassembled by the reversal — the sum of the scattered
+    PSD clique blocks — is PSD, so a feasible point of the decomposed problem gives a feasible
+    point of the original one (together with C18_std_primal_equiv / C18_cmp_primal_equiv). *)
+Theorem C18_sum_of_scattered_psd_blocks_is_psd :
+  forall (n : nat) (blocks : list (list nat * (nat -> nat -> Rdefinitions.R))),
+    (forall c B, In (c, B) blocks ->
+       NoDup c /\ (forall i, In i c -> (i < n)%nat) /\ PsdFacts.PSD (length c) B) ->
+    PsdFacts.PSD n (fun i j => PsdFacts.sum_blocks blocks i j).
+Proof. exact PsdFacts.sum_scatter_psd. Qed.
+(** Completion direction, two cliques {0..k} and {k..n-1} sharing the single vertex k
+    (supernodes of arbitrary size): the completion M_ij := M_ik M_kj / M_kk outside the pattern
+    is PSD and leaves both clique blocks untouched.  The general statement (any chordal
+    pattern; Grone, Johnson, Sa, Wolkowicz 1984) is cited, not proved. *)
+Theorem C18_completion_two_cliques : forall n k M,
+  (k < n)%nat -> (forall i j, M i j = M j i) -> Rdefinitions.Rlt (Rdefinitions.IZR 0) (M k k) ->
+  PsdFacts.PSD (S k) M -> PsdFacts.PSD (n - k) (fun i j => M (k + i)%nat (k + j)%nat) ->
+  PsdFacts.PSD n (PsdFacts.Mc k M).
+Proof. exact PsdFacts.completion_two_cliques. Qed.
+Theorem C18_completion_two_cliques_keeps_pattern : forall k M i j,
+  ((i <= k)%nat /\ (j <= k)%nat) \/ ((k <= i)%nat /\ (k <= j)%nat) -> PsdFacts.Mc k M i j = M i j.
+Proof. exact PsdFacts.completion_keeps_pattern. Qed.
 
 (** non-vacuity on the path 0-1-2 (cliques {0,1} -> {1,2}, valid by C17_example_valid):
     H of the standard form, the reversal sums the overlap row 2 and averages z there,
